@@ -118,6 +118,11 @@ def yields_of(log):
     return [e[1] for e in log if e[0] == "yield"]
 
 
+def base_limit(case, uk):
+    """uses that may carry an additional fault: all of them, or those before the case's own plan (cycle)"""
+    return case.plan[0] if case.plan else len(uk)
+
+
 def plans_for(run, kinds, exc):
     """fault plans at every use of the given kinds of a fault-free run"""
     uk = use_kinds(run["log"])
@@ -127,7 +132,8 @@ def plans_for(run, kinds, exc):
 def shrink_case(case, still_fails, budget=60):
     """Greedy shrinking: drop items / sources while the failure persists."""
     cur = case
-    changed = True
+    changed = case.plan is None      # a fault plan indexes uses: do not shrink under it
+
     while changed and budget > 0:
         changed = False
         for si in range(len(cur.srcs)):
@@ -159,6 +165,17 @@ def gen_cases(rng, tools, per_tool, tier, mixed=False):
 
 
 # ------------------------------------------------------------------ oracles on the implementation
+def std_run_for(case, r):
+    """CPython counterpart under the same consumer behaviour: a case's own plan (cycle: close at the t-th
+    yield) indexes the implementation's uses, which include aclose calls the stdlib does not perform."""
+    if case.plan is None:
+        return run_std(case)
+    uk = use_kinds(r["log"])
+    k = case.plan[0]
+    kstd = len([1 for j in range(builtins.min(k, len(uk))) if uk[j] != "close"])
+    return run_std(with_plan(case, (kstd, case.plan[1])))
+
+
 def oracle_values(case, r, s):
     """C01/C02: same items (identity) / same result, same ending. Returns None or a description."""
     if s is None:
@@ -213,6 +230,10 @@ def std_prefix_run(case, nsteps):
     return {"outcome": out, "log": list(ctx.log)}
 
 
+# tools whose CPython counterpart performs its uses in the same order (so that the k-th use corresponds)
+STD_ORDER_TOOLS = set(ITER_TOOLS) | {"all", "any", "min", "max", "sum", "list", "tuple", "set", "dict", "reduce"}
+
+
 # ------------------------------------------------------------------ the checks
 def finish_with_model(rep, prop, pairs, oracle_fail, proofs_ok):
     """Common end: model correspondence, violation search / reporting."""
@@ -252,7 +273,7 @@ def check_values(prop, tier, seed, tools):
         dist[c.name] = dist.get(c.name, 0) + 1
         nontriv = builtins.any(len(s) > 1 for s in c.srcs)
         rep.count((c.name, repr(c.params), repr(c.srcs)), nontriv, sample=c.describe() if nontriv else None)
-        s = run_std(c)
+        s = std_run_for(c, r)
         why = oracle_values(c, r, s)
         if why and documented_deviation(c, r, s):
             why = None
@@ -261,7 +282,7 @@ def check_values(prop, tier, seed, tools):
             why = mutation_check(c)
         if why:
             fails += 1
-            small = shrink_case(c, lambda cc: oracle_values(cc, run_impl(cc), run_std(cc)) is not None)
+            small = shrink_case(c, lambda cc: oracle_values(cc, run_impl(cc), std_run_for(cc, run_impl(cc))) is not None)
             rep.violation(sig(c, param_sig(c)), {"case": encode_case(small), "why": why, "replay_note": "run_impl vs run_std on this case"})
     rep.notes["input_distribution"] = dist
     finish_with_model(rep, prop, pairs, fails, proofs_ok)
@@ -314,13 +335,13 @@ def check_C05(tier, seed):
         r0 = run_impl(c)
         pairs.append((c, r0))
         rep.count((c.name, repr(c.params), repr(c.srcs)), builtins.any(len(s) > 1 for s in c.srcs), sample=c.describe())
-        s0 = run_std(c)
+        s0 = std_run_for(c, r0)
         bad = None
         if s0 is not None and not same_log(no_close(r0["log"]), s0["log"]):
             bad = ("full", no_close(r0["log"]), s0["log"])
         if c.tool.kind != "agg":
             # every number of consumer steps: close at the n-th yield vs CPython driven n steps
-            yield_uses = [k for k, kind in enumerate(use_kinds(r0["log"])) if kind == "yield"]
+            yield_uses = [k for k, kind in enumerate(use_kinds(r0["log"])) if kind == "yield" and k < base_limit(c, use_kinds(r0["log"]))]
             for n, k in enumerate(yield_uses, start=1):
                 cn = with_plan(c, (k, ("GenExit",)))
                 rn = run_impl(cn)
@@ -363,6 +384,7 @@ def check_faults(prop, tier, seed):
         r0 = run_impl(c)
         pairs.append((c, r0))
         uk = use_kinds(r0["log"])
+        lim = base_limit(c, uk)
         plans = []
         if prop == "C04":
             plans += [(k, ("GenExit",)) for k, kind in enumerate(uk) if kind == "yield"]
@@ -374,6 +396,7 @@ def check_faults(prop, tier, seed):
             plans += [(k, ("inj", 7, False)) for k, kind in enumerate(uk) if kind in ("pull", "call")]
         else:
             plans += [(k, ("inj", 9, True)) for k, kind in enumerate(uk) if kind in ("pull", "call", "close")]
+        plans = [p_ for p_ in plans if p_[0] < lim]
         for plan in plans:
             if c.tool.kind == "handle" and plan[1][0] == "inj" and uk[plan[0]] == "yield":
                 continue                         # class-based handles have no athrow
@@ -391,6 +414,29 @@ def check_faults(prop, tier, seed):
             if why:
                 fails += 1
                 rep.violation(sig(c, why[0]), {"case": encode_case(cp), "why": why[1], "log": repr(rp["log"]), "states": rp["states"]})
+        if prop == "C06" and c.name in STD_ORDER_TOOLS and c.tool.std is not None and c.plan is None:
+            # enumerate the fault positions over the CPython counterpart's own use sequence as well: a use the
+            # implementation no longer performs (so that the failure is swallowed) has no position in its own sequence
+            s0 = run_std(c)
+            suk = use_kinds(s0["log"])
+            impl_idx = [j for j, kind in enumerate(uk) if kind != "close"]
+            for ks, kind in enumerate(suk):
+                if kind not in ("pull", "call"):
+                    continue
+                sp = run_std(with_plan(c, (ks, ("inj", 7, False))))
+                ki = impl_idx[ks] if ks < len(impl_idx) else 10 ** 6
+                cp = with_plan(c, (ki, ("inj", 7, False)))
+                rp = run_impl(cp)
+                nplans += 1
+                so, ro = sp["outcome"], rp["outcome"]
+                same_exc = ro[0] == "exn" and so[0] == "exn" and ro[1] == so[1]
+                yi, ys = yields_of(rp["log"]), yields_of(sp["log"])
+                same_items = len(yi) == len(ys) and builtins.all(same_val(x, y) for x, y in builtins.zip(yi, ys))
+                if not (same_exc and same_items):
+                    fails += 1
+                    rep.violation(sig(c, "std-fault-%s" % ("swallowed" if ro[0] == "ok" else "differs")),
+                                  {"case": encode_case(c), "why": "the stdlib counterpart fails at its use %d (%s) with the injected exception after items %r; "
+                                   "asyncstdlib with the same failing use: outcome %r after items %r" % (ks, kind, ys, ro[:2], yi)})
     rep.notes["fault_plans"] = nplans
     finish_with_model(rep, prop, pairs, fails, proofs_ok)
     return rep.finish()
@@ -466,6 +512,6 @@ def run_cancel(cp, uk):
         except BaseException as e:  # noqa
             why = why or ("owner-close-failed", "closing the iterator after cancellation raised %r" % (e,))
         # the owner's close is outside the modelled run: do not let it count in the comparison
-        if not builtins.all(s.released() for s in r["srcs"]) and why is None and r["uses"] >= 0 and len(r["log"]) > 0:
+        if cp.tool.kind != "script" and not released_all(r) and why is None and len(r["log"]) > 0:
             why = ("leak", "source not released after cancellation at suspension %d and closing the iterator: %r" % (j, [s.state() for s in r["srcs"]]))
     return r, why
